@@ -90,6 +90,27 @@ Theorem C04_filtered_view :
 Proof. exact filtered_view_spec. Qed.
 Print Assumptions C04_filtered_view.
 
+(* What C04_filtered_view is and is not.  It makes the DEFINITION of the problems-only view explicit (a restatement of
+   Eval.filter_view: true by construction).  The request-path content of the clause -- a ShowAll=false reply is this
+   view of the very evaluation the cache holds for ShowAll=true, and producing it leaves what later requests get
+   untouched -- is C05's `filtered_does_not_disturb` over the heap model of the cache (Cache.v: cache and requesters share
+   one status object; an in-place filter is shown to break it), and is tied here by the probe, which asks one cached
+   evaluation for both views in both orders (filtered first every third case) and compares the view asked first with
+   the same view asked again last.
+   "The partition reported as max-lag is a listed one" is a statement about the FULL view: in the problems-only view the
+   max-lag partition may be one that is not listed there (it is OK), as this example shows. *)
+Example C04_ex_maxlag_outside_filtered_view :
+  let a := mkPstatus 1 0 0 0 StOK None None 100 f32_zero in     (* largest lag, status OK *)
+  let b := mkPstatus 1 1 0 0 StWarn None None 5 f32_zero in
+  let g := mkGstatus StWarn f32_zero [a; b] 2 (Some a) 105 in
+  gs_partitions (filter_view g) = [b] /\ gs_maxlag (filter_view g) = Some a /\ In a (gs_partitions g) /\
+  ~ In a (gs_partitions (filter_view g)).
+Proof.
+  cbn zeta. split; [reflexivity|]. split; [reflexivity|]. split; [left; reflexivity|].
+  cbn. intros [H|[]]. discriminate H.
+Qed.
+Print Assumptions C04_ex_maxlag_outside_filtered_view.
+
 (* ---- completeness in mathematical terms (proofs: F32Proofs.v, EvalCompleteProofs.v) ---- *)
 
 (* float32(z) is exact up to 2^24 *)
